@@ -1,7 +1,7 @@
 (* RbcStep4: local facts for the delivery clause (C14 validity / totality at quiescence): what setting each first-time filter
    entails (echo after r-send, answer after r-request, delivery attempt after r-answer), requests, well-formed output. *)
 From Coq Require Import ZArith List Bool Lia.
-From LT Require Import RbcModel RbcLemmas RbcStep RbcStep2 RbcStep3.
+From LT Require Import RbcModel RbcLemmas RbcStep.
 Import ListNotations.
 Local Open Scope Z_scope.
 
